@@ -7,7 +7,8 @@ SPEC = dict(
     translators=["sasl_order.py"],
     harnesses=[dict(name="saslchoice", asan=False, driver="qxdriver_c05")],
     exhaustive=True,
-    rule="one line = one call of the real SaslManager::authenticate / Sasl2Manager::authenticate with a capturing SendDataInterface; "
+    rule="TWO LEVELS. (A) manager level: "
+         "one line = one call of the real SaslManager::authenticate / Sasl2Manager::authenticate with a capturing SendDataInterface; "
          "observation = mechanism attribute of the emitted <auth/>/<authenticate/> + whether <fast/> is attached, or the mismatch "
          "error with its list of offered-but-disabled names. A group (= 'sequence') is one configuration "
          "(mode x disabled list x preferred x credentials). Configurations: 6 modes {SASL; SASL2 without <fast/>; SASL2 with FAST "
@@ -26,7 +27,18 @@ SPEC = dict(
          "yields >= 2 distinct observations. The oracle (independent of the model) checks on every line: chosen in offered, not "
          "disabled, supported and credential-usable (usable = the needed secret strings are NON-EMPTY); = preferred if that is permitted; else no permitted mechanism stronger per "
          "token > SCRAM-SHA3-512 > -512 > -256 > -1 > DIGEST-MD5 > PLAIN > ANONYMOUS; <fast/> attached iff FAST on and name in "
-         "<fast/>; nothing sent and MechanismMismatch iff nothing permitted.",
+         "<fast/>; nothing sent and MechanismMismatch iff nothing permitted. "
+         "(B) client level: one line = a fresh real QXmppClient/QXmppOutgoingClient (fake QSslSocket under the real XmppSocket: writes "
+         "captured, disconnect recorded) that got its stream header and is fed one <stream:features/>: <mechanisms/> x legacy "
+         "<auth xmlns=iq-auth/> yes/no x <bind/> yes/no x SASL 2 <authentication/> {absent, same names with HT names in <fast/>, only "
+         "unimplemented names}; configurations = 8 combinations of useSasl2/useSASL/useNonSASLAuthentication x 3 disabled lists x 3 "
+         "preferred x 4 credential states x FAST on/off; every subset of a 6-name (quick) / 8-name (thorough) universe, plus random "
+         "features over the ~90-name space with a bias to offers made only of unimplemented names. Observation = the set of "
+         "{sasl <mech>, sasl2 <mech> <fast>, mismatch <disabled names>, legacy (jabber:iq:auth sent), bind, session, error} + disconnected. "
+         "Client oracle (independent of the model): when SASL 2 (offered+enabled) or else SASL (non-empty offer+enabled) is "
+         "negotiated and no offered name is enabled+implemented+usable: MechanismMismatch reported to QXmppClient::errorOccurred, "
+         "disconnect, and NO <auth/>, <authenticate/>, jabber:iq:auth, bind or session; when something is permitted: exactly that "
+         "SASL element, judged by the manager-level oracle; SASL disabled or not offered: no SASL element and no mismatch.",
     trusted_base=[
         "Lean 4.33.0 kernel; axioms per theorem listed under coverage.theorems (subset of propext, Classical.choice, Quot.sound)",
         "translators/sasl_order.py (regex reader of QXmppSasl_p.h, QXmppSasl.cpp, QXmppConfiguration.cpp, QXmppSaslManager.cpp; "
